@@ -220,10 +220,27 @@ func changeConfig(method, path string, input []byte, ifMatchHeader string, force
 		return errSameConfig
 	}
 
+	// restoreOldCfg restores the old config state to keep it consistent
+	// with what caddy is still running (which is nothing if no config has
+	// been loaded yet); we need to unmarshal it again because it's likely
+	// that pointers deep in our rawCfg map were modified
+	restoreOldCfg := func() error {
+		var oldCfg any
+		var err error
+		if len(rawCfgJSON) > 0 {
+			err = json.Unmarshal(rawCfgJSON, &oldCfg)
+		}
+		rawCfg[rawConfigKey] = oldCfg
+		return err
+	}
+
 	// find any IDs in this config and index them
 	idx := make(map[string]string)
 	err = indexConfigObjects(rawCfg[rawConfigKey], "/"+rawConfigKey, idx)
 	if err != nil {
+		if err2 := restoreOldCfg(); err2 != nil {
+			err = fmt.Errorf("%v; additionally, restoring old config: %v", err, err2)
+		}
 		return APIError{
 			HTTPStatus: http.StatusInternalServerError,
 			Err:        fmt.Errorf("indexing config: %v", err),
@@ -234,19 +251,9 @@ func changeConfig(method, path string, input []byte, ifMatchHeader string, force
 	// our old representation of caddy's actual config
 	err = unsyncedDecodeAndRun(newCfg, true)
 	if err != nil {
-		if len(rawCfgJSON) > 0 {
-			// restore old config state to keep it consistent
-			// with what caddy is still running; we need to
-			// unmarshal it again because it's likely that
-			// pointers deep in our rawCfg map were modified
-			var oldCfg any
-			err2 := json.Unmarshal(rawCfgJSON, &oldCfg)
-			if err2 != nil {
-				err = fmt.Errorf("%v; additionally, restoring old config: %v", err, err2)
-			}
-			rawCfg[rawConfigKey] = oldCfg
+		if err2 := restoreOldCfg(); err2 != nil {
+			err = fmt.Errorf("%v; additionally, restoring old config: %v", err, err2)
 		}
-
 		return fmt.Errorf("loading new config: %v", err)
 	}
 
